@@ -42,6 +42,20 @@ impl<Key, Value> PutOrUpdateRequest<Key, Value>
     }
 }
 
+#[cfg(feature = "cached_verif")]
+impl<Key, Value> PutOrUpdateRequest<Key, Value>
+    where Key: Hash + Eq + Send + Sync + Clone,
+          Value: Send + Sync {
+    /// (a value is given, weight, time to live, remove time to live)
+    pub fn verif_fields(&self) -> (bool, Option<Weight>, Option<Duration>, bool) {
+        (self.value.is_some(), self.weight, self.time_to_live, self.remove_time_to_live)
+    }
+
+    pub fn verif_updated_weight(&self, weight_calculation_fn: &WeightCalculationFn<Key, Value>) -> Option<Weight> {
+        self.updated_weight(weight_calculation_fn)
+    }
+}
+
 /// Convenient builder that allows creating an instance of PutOrUpdateRequest.
 pub struct PutOrUpdateRequestBuilder<Key, Value>
     where Key: Hash + Eq + Send + Sync + Clone,
